@@ -531,8 +531,8 @@ pub fn gen(stream: &str, tier: &str, seed: u64, out: &mut dyn Write) -> bool {
             }
             // ladders: nesting 1..80 around the documented limit, all four container kinds
             let depths: Vec<usize> = if thorough { (1..=80).collect() } else { vec![1, 2, 3, 8, 31, 62, 63, 64, 65, 66, 80] };
-            for d in &depths { for kind in 0..4 {
-                let v = gen::ladder(*d, kind);      // nesting need = d + 1 (the leaf)
+            for d in &depths { for kind in 0..7 {
+                let v = if kind < 4 { gen::ladder(*d, kind) } else { gen::ladder_keys(*d, kind - 4) };      // nesting need = d + 1 (the leaf)
                 for p in SP::ALL {
                     emit_skv(out, p, None, &v, Some(&follow[(d + kind) % follow.len()]), trails[d % 3]);
                     if p.recursive() && (thorough || matches!(d, 1 | 3 | 63 | 64 | 80)) {
